@@ -469,6 +469,19 @@ def _attachment(fn):
                     ok = isinstance(inner, ast.Name) and inner.id == cv
                     return C, ok, "task receives `%s`, not its own element of the zipped child sequence" % A.unparse(inner)
                 return s, T, r[0], r[1], child_of, True, ""
+        # rebuilt list over positions: T = [<T[i]> + (gen(C[i]),) for i in range(len(T))]
+        if isinstance(s, ast.Assign) and isinstance(s.targets[0], ast.Name) and isinstance(s.value, ast.ListComp) and len(s.value.generators) == 1 and not s.value.generators[0].ifs:
+            g = s.value.generators[0]
+            T = s.targets[0].id
+            if isinstance(g.target, ast.Name) and canon(g.iter) == canon(parse("range(len(%s))" % T)):
+                idx = g.target.id
+                r = split(s.value.elt, {canon(parse("%s[%s]" % (T, idx)))})
+                if r is not None:
+                    def child_of(inner, idx=idx):
+                        if isinstance(inner, ast.Subscript):
+                            return inner.value, canon(inner.slice) == idx, "task %s receives child [%s]" % (idx, canon(inner.slice))
+                        return None, False, "task %s receives `%s`" % (idx, A.unparse(inner))
+                    return s, T, r[0], r[1], child_of, True, ""
         # indexed store in a loop
         if isinstance(s, ast.Assign) and isinstance(s.targets[0], ast.Subscript) and isinstance(s.targets[0].value, ast.Name) and isinstance(s.targets[0].slice, ast.Name):
             T = s.targets[0].value.id
@@ -687,7 +700,23 @@ def check_library_rng(ctx):
     ctx.floor(R, n, 10)
 
 
+def check_alias(ctx):
+    R = "C10-ALIAS"
+    ctx.rule(R, "a public entry point that takes `rng` AND swallows unknown keywords (**kwargs) keeps the `random_state` -> `rng` renaming decorator: without it a generator "
+                "passed under the former name is silently stored as metadata and the draw falls back to an unseeded generator.")
+    n = 0
+    for mn, q, fn in ctx.prog.all_functions():
+        if "rng" in A.param_names(fn) and fn.args.kwarg is not None and not q.split(".")[-1].startswith("_"):
+            n += 1
+            decos = [d for d in fn.decorator_list if isinstance(d, ast.Call) and (A.call_name(d) or "").split(".")[-1] == "deprecated_renamed_argument"]
+            ok = any(len(d.args) >= 2 and A.str_const(d.args[0]) == "random_state" and A.str_const(d.args[1]) == "rng" for d in decos)
+            rejects = any(isinstance(s_, ast.If) and A.always_raises(s_.body) and "random_state" in A.unparse(s_.test) for s_ in A.walk_local(fn))
+            ctx.check(R, fn, "%s maps or rejects `random_state`" % q, ok or rejects, "%s accepts **%s and has neither the renaming decorator nor a rejection of `random_state`" % (q, fn.args.kwarg.arg), key="alias:" + q)
+    ctx.floor(R, n, 1)
+
+
 def run(ctx):
+    check_alias(ctx)
     check_library_rng(ctx)
     check_global(ctx)
     check_prov(ctx)
